@@ -968,5 +968,190 @@ spec fn hrn_trace(a: World, b: World, script: Seq<Seq<char>>, paths: Seq<Seq<cha
 spec fn uniq_content_at(w: World, b: Blob, k: int) -> bool {
     forall|j: int| 0 <= j < b.file_infos@.len() && j != k && w.files.contains_key(#[trigger] b.file_infos@[j].path@) ==> sha256(w.files[b.file_infos@[j].path@].content) != sha256(w.files[b.file_infos@[k].path@].content)
 }
+
+// ---------- verified clients: compositions the way build.rs / clean() compose them (no repo code; checked by Verus) ----------
+
+// C10: clean, then build.  The file-state table handed to the build may say anything valid.
+fn client_clean_then_build<SystemType: System>(
+    blob : Blob, system : &mut SystemType, cache : &mut SysCache<SystemType>,
+    info : HandleNodeInfo<SystemType>, rule_ext : RuleExt<SystemType>, Tracked(w): Tracked<&mut World>)
+    -> (res: (Result<(), WorkError>, Option<Result<WorkResult, WorkError>>))
+    requires
+        old(cache).wf(*old(w)), rule_ext.cache.wf(*old(w)), inv(*old(w)),
+        blob.wf(*old(w)), blob.all_rem_ok(), info.blob.all_rem_ok(), blob.file_infos@.len() > 0,
+        info.blob.file_infos@.len() == blob.file_infos@.len(),
+        forall|k: int| 0 <= k < blob.file_infos@.len() ==> (#[trigger] info.blob.file_infos@[k]).path@ == blob.file_infos@[k].path@,
+        no_urls(rule_ext.downloader_cache_opt), no_urls_h(rule_ext.downloader_rule_history_opt),
+        hist_wf(rule_ext.rule_history.map(), blob.file_infos@.len() as int),
+        // the targets were up to date before the clean: the history remembers exactly their hashes for the current sources
+        rule_ext.rule_history.map().contains_key(rule_ext.sources_ticket),
+        forall|k: int| 0 <= k < blob.file_infos@.len() ==> old(w).files.contains_key(#[trigger] blob.file_infos@[k].path@)
+            && rule_ext.rule_history.map()[rule_ext.sources_ticket].infos@[k].ticket.bytes() == sha256(old(w).files[blob.file_infos@[k].path@].content),
+        // ... and their contents are pairwise different
+        forall|j: int, k: int| 0 <= j < k < blob.file_infos@.len() ==>
+            sha256(old(w).files[#[trigger] blob.file_infos@[j].path@].content) != sha256(old(w).files[#[trigger] blob.file_infos@[k].path@].content),
+    ensures
+        // after the clean no target exists and each one's content is in the cache                                   //# O-D-client-clean [C10]
+        res.0 is Ok ==> res.1 is Some,
+        // the following build runs no command and puts every target back: bytes, executable bit (the whole entry)    //# O-D-client-clean-build [C10]
+        (res.0 is Ok && res.1 matches Some(Ok(r))) ==> final(w).execs == old(w).execs
+            && forall|k: int| 0 <= k < blob.file_infos@.len() ==> final(w).files.contains_key(#[trigger] blob.file_infos@[k].path@)
+                    && final(w).files[blob.file_infos@[k].path@] == old(w).files[blob.file_infos@[k].path@],
+{
+    let ghost w0 = *w;
+    let ghost n = blob.file_infos@.len() as int;
+    let ghost hs = rule_ext.rule_history.map()[rule_ext.sources_ticket];
+    let ghost cmd = to_script(strs(rule_ext.command@));
+    let ghost b0 = blob;
+    let ghost b1 = info.blob;
+    let r1 = clean_targets(blob, system, cache, Tracked(w));
+    if r1.is_err() { return (r1, None); }
+    let ghost w1 = *w;
+    proof {
+        assert forall|k: int| 0 <= k < n implies uniq_content_at(w0, b0, k) by {}
+        assert forall|k: int| 0 <= k < n implies !w1.files.contains_key(#[trigger] b1.file_infos@[k].path@) by { assert(!w1.files.contains_key(b0.file_infos@[k].path@)); }
+        assert(b1.wf(w1)) by {
+            assert forall|k: int| 0 <= k < n implies w1.targets.contains(#[trigger] b1.file_infos@[k].path@) && !under(w1.cache_dir, b1.file_infos@[k].path@) && !w1.dirs.contains(b1.file_infos@[k].path@) by {
+                assert(b1.file_infos@[k].path@ == b0.file_infos@[k].path@);
+            }
+            assert forall|i: int, j: int| 0 <= i < j < n implies b1.file_infos@[i].path@ != b1.file_infos@[j].path@ by {
+                assert(b1.file_infos@[i].path@ == b0.file_infos@[i].path@); assert(b1.file_infos@[j].path@ == b0.file_infos@[j].path@);
+            }
+        }
+        assert(b1.all_absent(w1));
+        assert forall|k: int| 0 <= k < n implies uniq_at(hs.tickets(), k) && w1.files.contains_key(cpath(w1.cache_dir, #[trigger] hs.tickets()[k]))
+            && w1.files[cpath(w1.cache_dir, hs.tickets()[k])] == w0.files[b0.file_infos@[k].path@] by {
+            assert(w0.files.contains_key(b0.file_infos@[k].path@));
+            assert(hs.tickets()[k] == hs.infos@[k].ticket.bytes());
+            assert forall|j: int| 0 <= j < hs.tickets().len() && j != k implies #[trigger] hs.tickets()[j] != hs.tickets()[k] by {
+                assert(hs.tickets()[j] == hs.infos@[j].ticket.bytes());
+                assert(w0.files.contains_key(b0.file_infos@[j].path@));
+                if j < k { assert(sha256(w0.files[b0.file_infos@[j].path@].content) != sha256(w0.files[b0.file_infos@[k].path@].content)); }
+                else { assert(sha256(w0.files[b0.file_infos@[k].path@].content) != sha256(w0.files[b0.file_infos@[j].path@].content)); }
+            }
+        }
+    }
+    let r2 = handle_rule_node(info, rule_ext, Tracked(w));
+    proof {
+        if r2 is Ok {
+            let r = r2->Ok_0;
+            // O-D-no-exec applies: every target is uniquely recoverable
+            assert forall|k: int| 0 <= k < n implies
+                (uniq_at(hs.tickets(), k) && w1.files.contains_key(cpath(w1.cache_dir, (#[trigger] hs.infos@[k]).ticket.bytes()))) by {
+                assert(hs.tickets()[k] == hs.infos@[k].ticket.bytes());
+            }
+            assert(w.execs == w1.execs);
+            assert(!(r.work_option is CommandExecuted));
+            if r.work_option is Resolutions {
+                let v = r.work_option->Resolutions_0;
+                assert forall|k: int| 0 <= k < n implies w.files.contains_key(#[trigger] b0.file_infos@[k].path@) && w.files[b0.file_infos@[k].path@] == w0.files[b0.file_infos@[k].path@] by {
+                    assert(b1.file_infos@[k].path@ == b0.file_infos@[k].path@);
+                    assert(hs.tickets()[k] == hs.infos@[k].ticket.bytes());
+                    assert(res_ok(w1, *w, b1.file_infos@[k].path@, hs.infos@[k].ticket.bytes(), v@[k]));
+                    assert(res_unique(w1, *w, b1.file_infos@[k].path@, hs.infos@[k].ticket.bytes(), v@[k], b1.all_absent(w1)));
+                    assert(!(v@[k] is NeedsRebuild));
+                }
+            }
+        }
+    }
+    /*VACPROBE*/
+    (r1, Some(r2))
+}
+
+// C02: build the same rule again with nothing changed in between.  The second build gets what the first
+// one returned: its blob (file-state table round trip) and its history (history file round trip).
+fn client_build_twice<SystemType: System>(
+    info : HandleNodeInfo<SystemType>, rule_ext : RuleExt<SystemType>,
+    system2 : SystemType, cache2 : SysCache<SystemType>, sources_ticket2 : Ticket, command2 : Vec<String>,
+    Tracked(w): Tracked<&mut World>)
+    -> (res: (Option<Result<WorkResult, WorkError>>, Ghost<World>))
+    requires
+        rule_ext.cache.wf(*old(w)), cache2.wf(*old(w)), inv(*old(w)),
+        info.blob.wf(*old(w)), info.blob.all_rem_ok(), info.blob.file_infos@.len() > 0,
+        no_urls(rule_ext.downloader_cache_opt), no_urls_h(rule_ext.downloader_rule_history_opt),
+        hist_wf(rule_ext.rule_history.map(), info.blob.file_infos@.len() as int),
+        sources_ticket2 == rule_ext.sources_ticket, command2@ == rule_ext.command@,
+    ensures
+        // if both builds succeed, the second one runs no command and changes no file at all (inside or outside the cache)   //# O-D-client-repeat [C02]
+        // (res.1 is the world as the first build left it)
+        res.0 matches Some(Ok(r2)) ==> *final(w) == res.1@
+            && (r2.work_option matches WorkOption::Resolutions(v) && all_already_correct(v@)),
+{
+    let ghost n = info.blob.file_infos@.len() as int;
+    let ghost b0 = info.blob;
+    let r1 = handle_rule_node(info, rule_ext, Tracked(w));
+    let ghost mid = *w;
+    match r1 {
+        Err(_) => (None, Ghost(mid)),
+        Ok(wr) => {
+            let ghost st = sources_ticket2;
+            match wr.rule_history {
+                None => (None, Ghost(mid)),
+                Some(h) => {
+                    proof {
+                        assert(wr.blob.file_infos@.len() == n) by { assert(wr.blob.paths().len() == b0.paths().len()); }
+                        assert forall|k: int| 0 <= k < n implies (#[trigger] wr.blob.file_infos@[k]).path@ == b0.file_infos@[k].path@ by { assert(wr.blob.paths()[k] == b0.paths()[k]); }
+                        assert(wr.blob.wf(mid)) by {
+                            assert forall|k: int| 0 <= k < n implies mid.targets.contains(#[trigger] wr.blob.file_infos@[k].path@) && !under(mid.cache_dir, wr.blob.file_infos@[k].path@) && !mid.dirs.contains(wr.blob.file_infos@[k].path@) by {
+                                assert(wr.blob.file_infos@[k].path@ == b0.file_infos@[k].path@);
+                                hrn_dirs(*old(w), mid, to_script(strs(command2@)), b0.paths(), b0.file_infos@[k].path@);
+                            }
+                            assert forall|i: int, j: int| 0 <= i < j < n implies wr.blob.file_infos@[i].path@ != wr.blob.file_infos@[j].path@ by {
+                                assert(wr.blob.file_infos@[i].path@ == b0.file_infos@[i].path@); assert(wr.blob.file_infos@[j].path@ == b0.file_infos@[j].path@);
+                            }
+                        }
+                        // after a successful build the history remembers, for these sources, exactly what is on disk
+                        assert(h.map().contains_key(st));
+                        assert forall|k: int| 0 <= k < n implies file_tk(mid, b0.file_infos@[k].path@, (#[trigger] h.map()[st].infos@[k]).ticket) by {
+                            if wr.work_option is CommandExecuted {
+                                assert(h.map()[st].tickets()[k] == wr.file_state_vec.tickets()[k]);
+                                assert(file_tk(mid, b0.file_infos@[k].path@, wr.file_state_vec.infos@[k].ticket));
+                            } else {
+                                if wr.work_option is Resolutions {
+                                    let v = wr.work_option->Resolutions_0;
+                                    assert(res_ok(*old(w), mid, b0.file_infos@[k].path@, h.map()[st].infos@[k].ticket.bytes(), v@[k]));
+                                    assert(!(v@[k] is NeedsRebuild));
+                                }
+                            }
+                        }
+                    }
+                    let mut info2 = HandleNodeInfo { system: system2, blob: wr.blob };
+                    let ext2 = RuleExt { sources_ticket: sources_ticket2, command: command2, rule_history: h, cache: cache2,
+                        downloader_cache_opt: None, downloader_rule_history_opt: None };
+                    let r2 = handle_rule_node(info2, ext2, Tracked(w));
+                    proof {
+                        if r2 is Ok {
+                            let x = r2->Ok_0;
+                            // every target already holds its remembered hash: O-D-no-exec, then each status is Up-to-date
+                            assert(w.execs == mid.execs);
+                            if x.work_option is Resolutions {
+                                let v = x.work_option->Resolutions_0;
+                                assert forall|k: int| 0 <= k < v@.len() implies (#[trigger] v@[k]) is AlreadyCorrect by {
+                                    assert(wr.blob.file_infos@[k].path@ == b0.file_infos@[k].path@);
+                                    assert(file_tk(mid, b0.file_infos@[k].path@, h.map()[st].infos@[k].ticket));
+                                    assert(res_ok(mid, *w, wr.blob.file_infos@[k].path@, h.map()[st].infos@[k].ticket.bytes(), v@[k]));
+                                }
+                                assert(*w == mid);
+                            }
+                        }
+                    }
+                    /*VACPROBE*/
+                    (Some(r2), Ghost(mid))
+                }
+            }
+        }
+    }
+}
+// directories at target paths: ruler creates none, and (environment) neither do commands
+proof fn hrn_dirs(a: World, b: World, script: Seq<Seq<char>>, paths: Seq<Seq<char>>, p: Seq<char>)
+    requires hrn_trace(a, b, script, paths), same_consts(a, b), a.targets.contains(p), !a.dirs.contains(p)
+    ensures !b.dirs.contains(p)
+{
+    if !(b.execs == a.execs && kept(a, b) && frame_except(a, b, paths)) {
+        let mid = choose|mid: World| #![trigger ran(mid, b, script)] mid.execs == a.execs && kept(a, mid) && frame_except(a, mid, paths) && inv(mid) && ran(mid, b, script);
+        assert(mid.dirs == a.dirs);
+        assert(cmd_respects(mid, b));
+    }
+}
 } // verus!
 fn main() {}
